@@ -408,6 +408,23 @@ async fn main() {
                 "app_data_from_impostor_delivered": o.app_from_impostor_delivered, "elapsed_s": o.elapsed}),
             oracle_fail: fail, known: None, nontrivial: true, key: format!("impostor {:?} #{}", o.mode, i), kind: "impostor".into() });
     }
+    // pinned fingerprint against an independent server implementation (webrtc-rs dtls)
+    {
+        use dtls_hs::interop::{self, Fault, Pin};
+        let js: Vec<_> = [Pin::None, Pin::Right, Pin::Wrong].into_iter().map(|p| tokio::spawn(interop::run(true, Fault::None, p, 2500))).collect();
+        for j in js {
+            let o = j.await.expect("interop task");
+            let fail = match o.pin {
+                Pin::Wrong => if o.rustrtc_state == 2 { Some("client Connected to a webrtc-rs server whose certificate does not match the pinned fingerprint".to_string()) }
+                              else if o.rustrtc_state != 3 { Some(format!("pinned fingerprint mismatch against webrtc-rs but the client did not end Failed (state {})", o.rustrtc_state)) } else { None },
+                _ => if o.rustrtc_state == 2 && o.peer_connected && o.exporter_equal == Some(true) { None }
+                     else { Some(format!("client with {:?} pin did not connect to a genuine webrtc-rs server (state {}, exporter {:?})", o.pin, o.rustrtc_state, o.exporter_equal)) },
+            };
+            out.push(Case { term: "-".into(), desc: json!({"interop": "webrtc-rs dtls 0.17.2 as server", "pin": format!("{:?}", o.pin), "rustrtc_state": o.rustrtc_state,
+                    "peer_connected": o.peer_connected, "exporter_equal": o.exporter_equal}), oracle_fail: fail, known: None, nontrivial: o.pin != Pin::None,
+                key: format!("interop pin {:?}", o.pin), kind: "interop".into() });
+        }
+    }
     let nfp = if args.tier == "thorough" { 30000 } else { 3000 };
     let fpstat = fp_cases(&mut out, &mut rng, nfp);
     let bundlestat = fp_bundle_cases(&mut out, &mut rng, nfp / 10).await;
